@@ -145,6 +145,26 @@ class C01(Prop):
             fields = [("uniterr", [("ec", "ce")[i % 2]]), ("closure", ["1"])] + ([("umap", ["1"])] if mapped else []) \
                 + [("pipe", [pipe])]
             out.append(Case("pipe", ("local", "threads")[(i // 2) % 2], fields, evs, {"kind": "unit-error"}))
+        # the subscriber's error handler FAILS after it has been told (harness field `epanic`: it panics; the emitting call is
+        # wrapped in catch_unwind, execution goes on): the error was that subscriber's terminal — nothing may follow it
+        # (seed C01-10: a drop guard in on_error completed the downstream while the handler's panic unwound)
+        rngP = random.Random(seed + 103)
+        for i in range(300 if tier == "quick" else 3000):
+            shape = i % 4
+            pipe = [["hot", "0"], ["map", "add1", ["hot", "0"]], ["merge", ["hot", "0"], ["hot", "1"]],
+                    ["filter", "true", ["merge", ["hot", "0"], ["hot", "1"]]]][shape]
+            evs = [["sub"]]
+            for _ in range(rngP.randint(1, 7)):
+                r = rngP.random()
+                src = str(rngP.randrange(2)) if shape >= 2 else "0"
+                if r < 0.5:
+                    evs.append(["emit", src, ["n", str(rngP.randint(0, 9))]])
+                elif r < 0.8:
+                    evs.append(["emit", src, ["e", str(rngP.randint(1, 9))]])
+                else:
+                    evs.append(["emit", src, "c"])
+            out.append(Case("pipe", "local", [("epanic", ["1"]), ("closure", ["1"]), ("pipe", [pipe])], evs,
+                            {"kind": "handler-panics"}))
         out = tg.with_units(seed, out)
         # merge_all / group_by / share (theorems C01M_* over their own models): a sample of the populations of
         # C05, C20 and C11, full lines compared, grammar oracle per delivered stream
@@ -221,6 +241,8 @@ class C01(Prop):
         if case.suite == "coop":
             from .. import coopgen as cg
             return cg.shrink_candidates(case)
+        if case.field("realtimer"):
+            return []      # (without its `take` a zero-period interval never comes back)
         if case.suite in ("flatten", "groupby", "share"):
             out = []
             for i in range(len(case.events)):
